@@ -19,17 +19,19 @@ JSON_A = "examples/json/json.pest"
 JSON_B = "tests/grammars/json.pest"
 
 EXPLANATION = (
-    "The property compares run-time results with json.loads and an independent evaluator; that comparison is not "
-    "static. Decided are necessary conditions only. (a) The three calculators implement the same operator levels "
-    "and associativity: the precedence tables of the Pratt example and of the precedence climber are read as "
-    "literals; the climber's effective associativity is derived from its own code by the pairing rule (loop exit "
-    "test vs recursion bound evaluated per associativity class) and its loop is checked to fold postfix and infix "
-    "operators under the same precedence test; the grammar-encoded calculator's levels come from the rule nesting "
-    "chain of the .pest file and its associativity from rule shapes (x ~ (op ~ x)* with a left fold in the walker = "
-    "left, x ~ (op ~ self)? = right). All three must induce add,sub < mul,div < pow < neg < fac with + - * / left "
-    "and ^ right. (b) The lexical rules number and string of both bundled JSON grammars contain the RFC 8259 "
-    "regular definitions (inclusion over all code points, shortest witness on failure) and value lists the RFC's "
-    "alternatives; prefix rejection needs the top rule to end with EOI."
+    "Decided on the grammar files and the example code, under pest's semantics (that python-pest's engines implement "
+    "those semantics is C03 / C04 / C01 / C02). CALC-SEM: each of the three bundled calculators, as written, is "
+    "evaluated from its syntax tree on the tree of pairs the checker's reference reading of the calculator's own "
+    ".pest file gives for every well-formed model expression (up to two / three operators, parenthesised operands, "
+    "with and without blanks); _ast.py's evaluate() runs with symbolic operators, and the symbolic value - which "
+    "function is applied to which operands in which grouping - must be the intended one (add, sub < mul, div < pow "
+    "< neg < fac; ^ right; / = floordiv; ! = factorial): the three then agree for every assignment of the variables. "
+    "CALC-PRATT: the Pratt calculator's tables as declared, through the library's parse_expr. JSON-TREE: both bundled "
+    "JSON grammar files, read with the reference reading, accept every model RFC 8259 document (every scalar form in "
+    "every context, arrays / objects of 0-3 entries nested to depth three, three whitespace styles) with a tree that "
+    "mirrors it (nesting, order, raw number and string tokens) and reject every proper prefix. JSON-LEX: the lexical "
+    "rules number and string contain the RFC 8259 regular definitions over all code points (shortest witness on "
+    "failure). The readings of tables, loops and grammar shapes that decided these clauses before are second opinions."
 )
 
 WANT_ORDER = [{"add", "sub"}, {"mul", "div"}, {"pow"}, {"neg"}, {"fac"}]
@@ -243,16 +245,41 @@ def _table_levels(check: Check, name: str, prec: dict, assoc: dict) -> None:
     check.count("calculator_implementations")
 
 
-def calculators(check: Check, repo: Repo) -> None:
-    pratt_ok = pratt_calculator(check, repo)
-    # the reading of the Pratt example's tables as literals is a second opinion behind CALC-PRATT, which evaluates them
-    check.second_opinion(lambda c: _table_levels(c, "pratt", *pratt_tables(c, repo)), "CALC-PRATT", pratt_ok)
-    _table_levels(check, "prec_climber", *climber_tables(check, repo))
-    _table_levels(check, "grammar_encoded", *grammar_tables(check, repo))
-    # the shared calculator grammar lists the same operator rules
+def calc_sem(check: Check, repo: Repo) -> bool:
+    """CALC-SEM: each of the three calculators, as written - tree builder and `evaluate()` - on the tree of pairs
+    the reference reading of its own grammar file gives for every model expression, with symbolic operators
+    (sa/calcsem.py): the three must compute the intended symbolic value."""
+    from ..calcsem import check as calc_check
+
+    counts, bad = calc_check(repo, "C17 CALC-SEM", 2 if check.tier == "quick" else 3)
+    for rel, n in counts.items():
+        check.count("calculator_sem_points", n)
+        check.count("calculator_sem_implementations")
+        mine = [b for b in bad if b[0] == rel]
+        if not mine:
+            check.oblige("CALC-SEM", rel, f"on all {n} model expressions (text read through the calculator's own grammar file, tree built and evaluated by the example as written, operators symbolic) the value is the intended one", True, sample=True)
+    cats: dict[tuple[str, str], list[str]] = {}
+    for rel, cat, msg in bad:
+        cats.setdefault((rel, cat), []).append(msg)
+    for (rel, cat), msgs in sorted(cats.items()):
+        check.oblige("CALC-SEM", rel, cat, False, sample=True, finding=Finding("CALC-SEM", rel, cat, f"{cat}: e.g. {msgs[0]} ({len(msgs)} model expressions); the three calculators then disagree with each other or with the reference", {"witness": msgs[0]}))
+    return not bad
+
+
+def _calc_pest_classes(check: Check, repo: Repo) -> None:
     rules = P.read_pest(repo.read(CALC_PEST), CALC_PEST)
     ok = set(_ids(rules["infix"][1])) == {"add", "sub", "mul", "div", "pow"} and _ids(rules["prefix"][1]) == ["neg"] and _ids(rules["postfix"][1]) == ["fac"]
     check.oblige("CALC-LEVELS", CALC_PEST, "calculator.pest: infix = add|sub|mul|div|pow, prefix = neg, postfix = fac" if ok else "calculator.pest operator classes changed", ok)
+
+
+def calculators(check: Check, repo: Repo) -> None:
+    pratt_ok = pratt_calculator(check, repo)
+    sem_ok = calc_sem(check, repo)
+    # the readings of the examples' tables, loops and grammar shapes are second opinions behind the rules that evaluate them
+    check.second_opinion(lambda c: _table_levels(c, "pratt", *pratt_tables(c, repo)), "CALC-PRATT", pratt_ok)
+    check.second_opinion(lambda c: _table_levels(c, "prec_climber", *climber_tables(c, repo)), "CALC-SEM", sem_ok)
+    check.second_opinion(lambda c: _table_levels(c, "grammar_encoded", *grammar_tables(c, repo)), "CALC-SEM", sem_ok)
+    check.second_opinion(lambda c: _calc_pest_classes(c, repo), "CALC-SEM", sem_ok)
 
 
 # ----------------------------------------------------------------------------- JSON
@@ -291,35 +318,59 @@ def json_grammars(check: Check, repo: Repo) -> None:
                          finding=Finding("JSON-LEX", f"{rel}::{rule}", f"an {label} is rejected by {rule}", f"{rel}: {rule} does not match the {label} {w!r}", {"witness": w, "product_states": n}))
             check.count("json_lexical_inclusions")
             check.count("product_states", n)
-        val = rules.get("value")
-        if val is None:
-            raise AnalysisError(f"anchor vanished: {rel}::value")
-        alts = set(_ids(val[1]))
-        want = {"object", "array", "string", "number", "null"}
-        ok = want <= alts and (("boolean" in alts) or ("bool" in alts))
-        check.oblige("JSON-LEX", f"{rel}::value", "value lists object, array, string, number, boolean, null" if ok else f"value alternatives are {sorted(alts)}", ok)
-        top = rules.get("json")
-        ids = _ids(top[1]) if top else []
-        ok = top is not None and ids[:1] == ["SOI"] and ids[-1:] == ["EOI"]
-        check.oblige("JSON-LEX", f"{rel}::json", "the top rule is anchored SOI ... EOI (proper prefixes are rejected)" if ok else "the top rule is not anchored with SOI and EOI", ok)
-        for lit_rule, lits in (("null", ["null"]),):
-            body = rules.get(lit_rule)
-            ok = body is not None and body[1] == ("str", "null")
-            check.oblige("JSON-LEX", f"{rel}::{lit_rule}", "null is the literal null" if ok else "null rule changed", ok)
-        brule = rules.get("boolean") or rules.get("bool")
-        ok = brule is not None and brule[1] == ("choice", [("str", "true"), ("str", "false")])
-        check.oblige("JSON-LEX", f"{rel}::boolean", 'boolean = "true" | "false"' if ok else "boolean rule changed", ok)
-        ws = rules.get("WHITESPACE")
-        wset = pr.single_set(ws[1]) if ws else None
-        ok = wset == ((9, 10), (13, 13), (32, 32))
-        check.oblige("JSON-LEX", f"{rel}::WHITESPACE", "WHITESPACE = space, tab, LF, CR (RFC 8259 ws)" if ok else f"WHITESPACE denotes {wset}", ok)
+        tree_ok = json_tree(check, repo, rel)
+        # the readings of the grammar's shape are second opinions behind JSON-TREE, which reads the documents
+        check.second_opinion(lambda c, rules=rules, pr=pr, rel=rel: _json_shapes(c, rules, pr, rel), "JSON-TREE", tree_ok)
+
+
+def json_tree(check: Check, repo: Repo, rel: str) -> bool:
+    """JSON-TREE: the grammar file, read with the checker's reference reading of pest's semantics, accepts every
+    document of the model family, yields a tree that mirrors it, and rejects every proper prefix (sa/jsonsem.py)."""
+    from ..jsonsem import check as json_check
+
+    counts, bad = json_check(repo, rel, check.tier)
+    check.count("json_documents", counts["documents"])
+    check.count("json_prefixes", counts["prefixes"])
+    if not bad:
+        check.oblige("JSON-TREE", f"{rel}::json", f"all {counts['documents']} model documents are accepted with a tree that mirrors them; all {counts['prefixes']} proper prefixes are rejected", True, sample=True)
+    cats: dict[str, list[str]] = {}
+    for cat, msg in bad:
+        cats.setdefault(cat, []).append(msg)
+    for cat, msgs in sorted(cats.items()):
+        check.oblige("JSON-TREE", f"{rel}::json", cat, False, sample=True, finding=Finding("JSON-TREE", f"{rel}::json", cat, f"{rel}: {cat}: e.g. {msgs[0][:300]} ({len(msgs)} of {counts['documents']} model documents)", {"witness": msgs[0][:600]}))
+    return not bad
+
+
+def _json_shapes(check: Check, rules: dict, pr, rel: str) -> None:  # noqa: ANN001
+    val = rules.get("value")
+    if val is None:
+        raise AnalysisError(f"anchor vanished: {rel}::value")
+    alts = set(_ids(val[1]))
+    want = {"object", "array", "string", "number", "null"}
+    ok = want <= alts and (("boolean" in alts) or ("bool" in alts))
+    check.oblige("JSON-LEX", f"{rel}::value", "value lists object, array, string, number, boolean, null" if ok else f"value alternatives are {sorted(alts)}", ok)
+    top = rules.get("json")
+    ids = _ids(top[1]) if top else []
+    ok = top is not None and ids[:1] == ["SOI"] and ids[-1:] == ["EOI"]
+    check.oblige("JSON-LEX", f"{rel}::json", "the top rule is anchored SOI ... EOI (proper prefixes are rejected)" if ok else "the top rule is not anchored with SOI and EOI", ok)
+    body = rules.get("null")
+    ok = body is not None and body[1] == ("str", "null")
+    check.oblige("JSON-LEX", f"{rel}::null", "null is the literal null" if ok else "null rule changed", ok)
+    brule = rules.get("boolean") or rules.get("bool")
+    ok = brule is not None and brule[1] == ("choice", [("str", "true"), ("str", "false")])
+    check.oblige("JSON-LEX", f"{rel}::boolean", 'boolean = "true" | "false"' if ok else "boolean rule changed", ok)
+    ws = rules.get("WHITESPACE")
+    wset = pr.single_set(ws[1]) if ws else None
+    ok = wset == ((9, 10), (13, 13), (32, 32))
+    check.oblige("JSON-LEX", f"{rel}::WHITESPACE", "WHITESPACE = space, tab, LF, CR (RFC 8259 ws)" if ok else f"WHITESPACE denotes {wset}", ok)
 
 
 def run(tier: str) -> Check:
     check = Check("C17", tier, EXPLANATION)
-    check.rules = ["CALC-PRATT", "CALC-LEVELS", "CALC-ASSOC", "CLIMB-LOOP", "CLIMB-ASSOC", "GRAMMAR-LEVELS", "JSON-LEX", "PRATT", "P1", "P2", "P3", "P4", "P5", "STREAM"]
+    check.rules = ["CALC-PRATT", "CALC-SEM", "JSON-TREE", "CALC-LEVELS", "CALC-ASSOC", "CLIMB-LOOP", "CLIMB-ASSOC", "GRAMMAR-LEVELS", "JSON-LEX", "PRATT", "P1", "P2", "P3", "P4", "P5", "STREAM"]
     check.assumptions = [
-        "tree mirroring of json.loads, prefix rejection on concrete documents and evaluated values are run-time results and are not decided",
+        "that python-pest's four execution modes implement pest's semantics on these grammars is decided by C03 / C04 / C01 / C02, not here; the reference reading (sa/pegref.py) is the specification side",
+        "model families: one representative per kind (scalar form x context, entry counts 0-3, nesting to depth three, whitespace style; streams of up to three operators)",
         "RFC 8259 number/string ABNF is frozen in the checker as reference regular expressions",
         "the precedence table documented in grammar_encoded_prec.pest's header is the reference order",
     ]
@@ -330,7 +381,10 @@ def run(tier: str) -> Check:
     from .c18 import pratt_rules
 
     pratt_rules(check, repo)
-    check.floor("calculator_implementations", 2)
+    check.floor("calculator_sem_implementations", 3)
+    check.floor("calculator_sem_points", 300)
     check.floor("pratt_calculator_streams", 300)
     check.floor("json_lexical_inclusions", 3)
+    check.floor("json_documents", 1500)
+    check.floor("json_prefixes", 10000)
     return check
